@@ -111,7 +111,12 @@ def read_view(ro):
     from . import impl
     import warnings
     from xml.etree import ElementTree as _ET
-    impl.apply_cfg(impl.cfg_for(_ET.tostring(ro.xml, encoding='unicode')))
+    key = _ET.tostring(ro.xml, encoding='unicode')
+    impl.apply_cfg(impl.cfg_for(key))
+    # the process time zone is not an input either: naive times are wall-clock times, whatever TZ says
+    import os, time, zlib
+    os.environ['TZ'] = ('UTC', 'EST5EDT,M3.2.0,M11.1.0', 'Australia/Lord_Howe')[zlib.crc32(key.encode('utf-8', 'surrogatepass')) // 3 % 3]
+    time.tzset()
     try:
         with warnings.catch_warnings():
             warnings.filterwarnings('error', category=DeprecationWarning)     # see impl.add
@@ -125,10 +130,10 @@ def read_view(ro):
 # ---- generators ------------------------------------------------------------------------------------
 
 FIELDS = ('duration', 'text_time', 'media_time', 'started', 'ended')
-STARTS = ['2021-03-04T10:00:00', '2021-03-04T10:07:30', '2020-02-29T23:59:59']
+STARTS = ['2021-03-04T10:00:00', '2021-03-04T10:07:30', '2020-02-29T23:59:59', '2021-03-14T01:45:00', '2021-11-07T01:30:00']
 ENDS = ['2021-03-04T10:05:00', '2021-03-04T11:00:00', '2020-03-01T00:00:10']
 ZONES = ['', '', 'Z', '+00:00', '+01:00', '-05:30', '+13:45']
-DURS = ['0', '3', '2.5', '12.25', '0.125', '60', '31', ' 3 ', '+2', '1e1', '25e-1', '0.5E1', '1.50', '007', '.5', '5.',
+DURS = ['1800', '3600', '0', '3', '2.5', '12.25', '0.125', '60', '31', ' 3 ', '+2', '1e1', '25e-1', '0.5E1', '1.50', '007', '.5', '5.',
         '0.1', '0.2', '0.3337', '20.0004', '1.000001', '0.04', '7.7', '1e-3', '33.333333']
 
 
@@ -209,7 +214,7 @@ def time_cases(tier, rng):
             lbl, md = rng.choice(variants)
             lbls.append(lbl)
             sts.append(B.story(sid, rng.choice(bodies), md=md, slug=rng.random() < 0.8))
-        ed = rng.choice([None, '2021-03-04T09:00:00', '2019-12-31T23:59:59'])
+        ed = rng.choice([None, '2021-03-04T09:00:00', '2019-12-31T23:59:59', '2021-03-14T01:30:00', '2021-11-07T00:59:30', '2021-10-03T01:45:00'])
         doc = B.ro_doc(sts, ed_start=ed, pattern=rng.choice(B.PATTERNS))
         zl = ''
         if rng.random() < 0.3:
